@@ -26,6 +26,9 @@ def generate(rng, tier, n):
     while len(cases) < n:
         t, st = gen_tree(rng, max_nodes=rng.choice([8, 20, 45]), max_depth=rng.choice([3, 5, 6]),
                          single_rate=rng.choice([0.1, 0.3]))
+        if cid == 1:
+            from ..solvers import needle_tree
+            t, st = needle_tree(rng, rng.choice([65, 70, 130]), pl=rng.choice([1, 2]))     # wider than a machine word
         cb = CaseBuilder(cid, t, {"stats": st})
         src_kind = rng.choice(["import", "import", "truncate", "solve", "solve"])
         if src_kind == "solve":
